@@ -28,6 +28,7 @@ const (
 	decKeep    = "keep"    // return the old value (nil when absent)
 	decReplace = "replace" // return Val
 	decDelete  = "delete"  // return nil
+	decAppend  = "append"  // return the old value + "+" + Val: a decision that depends on the stored value
 )
 
 type ScriptItem struct {
@@ -77,6 +78,8 @@ func (s *scripted) Merge(old []byte) ([]byte, error) {
 		return old, nil
 	case decReplace:
 		return append([]byte(nil), it.Val...), nil
+	case decAppend:
+		return append(append(append([]byte(nil), old...), '+'), it.Val...), nil
 	default:
 		return nil, nil
 	}
@@ -184,6 +187,8 @@ func checkC19(c C19Case, o *vcore.Obs) error {
 				nv = old
 			case decReplace:
 				nv = in.Val
+			case decAppend:
+				nv = append(append(append([]byte(nil), old...), '+'), in.Val...)
 			}
 			if len(nv) == 0 {
 				delete(mdl, string(in.Key))
@@ -270,6 +275,7 @@ func checkC19(c C19Case, o *vcore.Obs) error {
 	o.NonTrivial(len(c.Stored) >= 3 && len(c.Input) >= 3 && nEq >= 1 && len(decs) >= 4)
 	o.Class("strategy-" + c.Strategy)
 	o.Class("kind-" + c.Kind)
+	o.ClassIf(len(c.Input) >= 30, "bulk-insertions-before-stored-keys")
 	o.ClassIf(len(c.Stored) == 0, "stored-empty")
 	o.ClassIf(len(c.Input) == 0, "input-empty")
 	for _, st := range c.Stored {
@@ -425,7 +431,13 @@ func genC19(t *rapid.T) C19Case {
 				reps = rapid.IntRange(1, 3).Draw(t, "dups")
 			}
 			for r := 0; r < reps; r++ {
-				item := ScriptItem{Key: k, Merge: rapid.SampledFrom([]string{decKeep, decReplace, decReplace, decDelete}).Draw(t, "merge")}
+				item := ScriptItem{Key: k, Merge: rapid.SampledFrom([]string{decKeep, decReplace, decReplace, decDelete, decAppend}).Draw(t, "merge")}
+				if item.Merge == decAppend && c.Strategy == "emptyput" {
+					item.Merge = decReplace
+				}
+				if item.Merge == decAppend {
+					item.Val = model.Bytes("x")
+				}
 				if item.Merge == decReplace {
 					item.Val = val("iv", k, byte('I'+r))
 					if rapid.IntRange(0, 5).Draw(t, "same") == 0 && st && c.Strategy != "emptyput" {
@@ -435,6 +447,36 @@ func genC19(t *rapid.T) C19Case {
 				c.Input = append(c.Input, item)
 			}
 		}
+	}
+	// bulk layout (byte-ordered DBI): a few stored keys at the end of the key space, one small stored key that
+	// the input replaces first, and several kilobytes of new input keys in between - the stored entries are
+	// looked at long before their turn comes, while the pages they live on are rewritten by the insertions
+	if c.Strategy != "emptyput" && c.Kind == "plain" && rapid.IntRange(0, 9).Draw(t, "bulk") == 0 {
+		c.Stored, c.Input = nil, nil
+		c.Stored = append(c.Stored, StoredItem{Key: []byte("0-first"), Val: model.Bytes("S-first"), Clean: decKeep})
+		tail := []string{"m", "p", "z"}
+		for _, k := range tail {
+			s := StoredItem{Key: []byte(k), Val: model.Bytes("stored-value-of-" + k), Clean: rapid.SampledFrom([]string{decKeep, decReplace, decDelete}).Draw(t, "bclean")}
+			if s.Clean == decReplace {
+				s.CVal = model.Bytes("cleaned-" + k)
+			}
+			c.Stored = append(c.Stored, s)
+		}
+		c.Input = append(c.Input, ScriptItem{Key: []byte("0-first"), Merge: decReplace, Val: model.Bytes("I-first")})
+		nb := rapid.IntRange(30, 90).Draw(t, "nbulk")
+		vl := rapid.SampledFrom([]int{60, 100, 200}).Draw(t, "bulkval")
+		for i := 0; i < nb; i++ {
+			c.Input = append(c.Input, ScriptItem{Key: []byte(fmt.Sprintf("a%04d", i)), Merge: decReplace, Val: bytes.Repeat([]byte{byte('a' + i%26)}, vl)})
+		}
+		for _, k := range tail {
+			if rapid.Bool().Draw(t, "btail_in") {
+				c.Input = append(c.Input, ScriptItem{Key: []byte(k), Merge: rapid.SampledFrom([]string{decAppend, decAppend, decKeep}).Draw(t, "bmerge"), Val: model.Bytes("X")})
+			}
+		}
+		if c.Strategy == "update" && rapid.Bool().Draw(t, "bshuffle") {
+			c.Input = rapid.Permutation(c.Input).Draw(t, "bperm")
+		}
+		return c
 	}
 	// a stored key with an EMPTY value (legal in LMDB): always also in the input, so that its fate is decided
 	// by a merge decision (the value-keyed Clean lookup needs unique stored values)
